@@ -40,6 +40,7 @@ QTYPES = ["qint2", "qint4", "qint8", "qfloat8", "qfloat8_e4m3fn", "qfloat8_e5m2"
 STORAGE = {"qint8": torch.int8, "qfloat8": torch.float8_e4m3fn, "qfloat8_e4m3fn": torch.float8_e4m3fn,
            "qfloat8_e5m2": torch.float8_e5m2}
 SHAPES = [(1,), (2,), (6,), (1, 4), (4, 1), (2, 3), (4, 6), (6, 4), (3, 3), (2, 1, 3), (2, 3, 4), (2, 2, 2, 2), (1, 2, 3, 4)]
+MORE_SHAPES = [(3, 5), (5, 3), (4, 4), (8, 2), (2, 8), (1, 1, 4), (2, 3, 1), (2, 2, 3), (3, 1, 2, 2), (2, 1, 2, 3), (7,), (1, 1)]
 AXES = [None, -2, -1, 0, 1, 2]
 DT = [torch.float32, torch.float16, torch.bfloat16]
 
@@ -418,6 +419,13 @@ def run(ctx):
     import optimum.quanto as oq
 
     warnings.simplefilter("ignore")
+    if ctx.tier == "thorough":
+        for sh in MORE_SHAPES:
+            if sh not in SHAPES:
+                SHAPES.append(sh)
+        for a in (-3, 3, -4):
+            if a not in AXES:
+                AXES.append(a)
     k = part_quantize_weight(ctx, oq, 0)
     k = part_symmetric(ctx, oq, k)
     k = part_affine(ctx, oq, k)
